@@ -170,8 +170,10 @@ func imageconvCmd(args []string) error {
 	outDir := fs.String("out", "", "")
 	tier := fs.String("tier", "quick", "")
 	seed := fs.Int64("seed", 1, "")
+	structOnly := fs.Bool("structonly", false, "only the structural part (bounds, origins, parallelism, identity)")
+	outName := fs.String("name", "c15.ndjson", "")
 	fs.Parse(args)
-	sink, done, err := newSink(filepath.Join(*outDir, "c15.ndjson"))
+	sink, done, err := newSink(filepath.Join(*outDir, *outName))
 	if err != nil {
 		return err
 	}
@@ -191,6 +193,9 @@ func imageconvCmd(args []string) error {
 	}
 	var jobs []job
 	for i, n := range names {
+		if *structOnly {
+			break
+		}
 		for k, h := range helpers {
 			jobs = append(jobs, job{n, h, pars[(i+k)%len(pars)]})
 		}
